@@ -313,4 +313,34 @@ for si in range(nsets):
     cases.append("([%s], [%s], [%s])" % (";\n ".join(obs), "; ".join(pairs), "; ".join(ordered)))
     meta.append(dict(atoms=label, n=n, formulas=len(forms), charge_tie=bool(tie), ordered=texts))
 
+# ------------------------------------------------------------------ the same statements over a private table
+# (same counts means the same atoms: those of the formula's own table)
+try:
+    from periodictable import mass as _mass
+    PRIV = core.PeriodicTable("c19private")
+    _mass.init(PRIV)
+    stats["private_table"] = 0
+    for text in ["CH4", "H2O", "HDO", "NaCl", "Fe{2+}Fe{3+}2O4", "O[18]H2", "C6H5D", "Ca(OH)2", "SiO2 + 2H2O", "D2O"] + \
+            ["".join("%s%d" % (rng.choice(pool.elements).symbol, rng.randint(1, 9)) for _ in range(rng.randint(2, 5))) for _ in range(12)]:
+        f = attempt(lambda: formula(text, table=PRIV))
+        if isinstance(f, Exception):
+            continue
+        stats["private_table"] += 1
+        h = attempt(lambda: f.hill)
+        inp = "formula(%r, table=private).hill" % text
+        if isinstance(h, Exception):
+            fail("C19:raises", "%s raised %s: %s" % (inp, type(h).__name__, h), input=inp)
+            continue
+        if any(getattr(a, "table", None) != "c19private" for a in f.atoms):
+            fail("C19:harness-private-parse", "formula(%r, table=private) holds atoms of another table" % text, input=inp)
+            continue
+        if h.atoms != f.atoms or any(not any(a is b for b in f.atoms) for a in h.atoms):
+            fail("C19:hill-changes-atoms:private-table", "%s has atoms %r, the formula has %r (atoms of the %s table)"
+                 % (inp, {repr(a): (c, a.table) for a, c in h.atoms.items()}, {repr(a): (c, a.table) for a, c in f.atoms.items()}, "private"), input=inp)
+        elif attempt(lambda: h.hill == h) is not True:
+            fail("C19:hill-not-idempotent", "%s: taking the Hill form twice changes it" % inp, input=inp)
+except Exception as e:  # noqa
+    import traceback
+    fail("C19:raises", "the private-table statements raised %s: %s" % (type(e).__name__, e), input="private table", trace=traceback.format_exc()[-600:])
+
 json.dump(dict(cases=cases, meta=meta, direct_fails=list(fails.values()), stats=stats), sys.stdout)
